@@ -25,7 +25,8 @@ PRIVATE_NAMES = {"d", "p", "q", "dp", "dq", "qi", "oth", "k"}
 
 
 def needles_of(key):
-    d = key.as_dict(private=True) if key.is_private else {}
+    # private-flagged members the key object holds, whether or not it counts as a private key
+    d = key.as_dict(private=True) if key.is_private else dict(key._dict_value)
     out = []
     for name in PRIVATE_NAMES & set(d):
         raw = KC.strict_b64(d[name])
@@ -81,7 +82,7 @@ def run(ctx):
     from joserfc import jws, jwe, jwt, rfc7797
     from joserfc.jwk import KeySet
     rng = ctx.rng
-    pop = KC.population(ctx)
+    pop = KC.population(ctx) + KC.odd_shapes()
     all_jws = J.ALL_ALGS
     jwe_all = list(jwe.JWERegistry.algorithms["alg"]) + list(jwe.JWERegistry.algorithms["enc"]) + ["DEF"]
     lines, impls = [], []
@@ -104,6 +105,8 @@ def run(ctx):
         scan(ctx, label, "thumbprint", key.thumbprint(), needles)
         k2 = type(key).import_key(key.as_dict())
         k2.ensure_kid()
+        if label.startswith("odd-"):
+            continue
         scan(ctx, label, "kid", k2.kid, needles)
         # --- private export from a public-only key is an error
         if key.key_type != "oct":
